@@ -15,8 +15,15 @@ PROPERTY = "C09"
 LEVEL = "exploration"
 
 
+# parameter points outside the range in which the example documents a reference value: the returned number is still a bound
+MORE = {
+    "douglas_rachford_splitting": [dict(L=L, alpha=a, theta=t, n=n) for L in (1.0, 2.0) for a, t in ((1.0, 1.0), (1.5, 1.0), (1.0, 0.7), (0.5, 1.5))
+                                   for n in (1, 2, 3)],
+}
+
+
 def grid_for(name, tier):
-    g = T.grid(name, tier)
+    g = T.grid(name, tier) + [kw for kw in MORE.get(name, []) if kw not in T.grid(name, tier)]
     if tier == "quick":
         # up to 10 grid points spread evenly over the grid, small iteration counts (the real runs enumerate selection trees)
         g = [kw for kw in g if kw.get("n", 1) <= 6]
